@@ -537,6 +537,10 @@ func init() {
 		rt := cc.Signature().Results()
 		return &Val{K: KTuple, T: rt, Fs: []*Val{{K: KIface, T: rt.At(0).Type(), X: aead}, {K: KIface, T: rt.At(1).Type(), X: Num(0)}}}, st
 	})
+	// AEAD.NonceSize(): 12 for the standard GCM that cipher.NewGCM returns (the only AEAD constructed in the repository)
+	reg("(crypto/cipher.AEAD).NonceSize", nil, func(fr *Frame, st *State, a []*Val, cc *ssa.CallCommon, pos token.Pos) (*Val, *State) {
+		return intVal(res0(cc), Num(12)), st
+	})
 	// AEAD.Seal(dst, nonce, plaintext, ad) with dst == nil: ciphertext||tag = gcmSeal(key, nonce, plaintext, ad)
 	reg("(crypto/cipher.AEAD).Seal", []string{"S:byte"}, func(fr *Frame, st *State, a []*Val, cc *ssa.CallCommon, pos token.Pos) (*Val, *State) {
 		hp := st.heapGet("S:byte", SArr(SInt, SArr(SInt, SInt)))
